@@ -115,6 +115,29 @@ pub fn exec(toks: &[&str]) -> String {
             }}}
             format!("ok {} {} {}", n, bad, tsum)
         }
+        // Time::years_from_date on the instant <ts>: the civil fields of the result
+        ["yfd", years, ts] => {
+            let (years, ts): (i32, i64) = match (years.parse(), ts.parse()) { (Ok(a), Ok(b)) => (a, b), _ => return "bad-op".into() };
+            let date = match Utc.timestamp_opt(ts, 0) { chrono::LocalResult::Single(d) => d, _ => return "bad-op".into() };
+            let t = Time::years_from_date(years, date);
+            format!("{} {}", show_time(t), t.timestamp())
+        }
+        // Validity::from_secs / from_duration (wall clock): the window is ordered, as long as asked for, and holds now
+        // (forwards) or ends now (backwards); reported as three verdicts so that the line does not depend on the clock
+        ["fromsecs", secs] => {
+            let secs: i64 = match secs.parse() { Ok(s) => s, Err(_) => return "bad-op".into() };
+            let before = Time::now();
+            let v = Validity::from_secs(secs);
+            let after = Time::now();
+            let (nb, na) = (v.not_before(), v.not_after());
+            let len = na.timestamp() - nb.timestamp();
+            let ordered = nb <= na;
+            let long = (len - secs.abs()).abs() <= 1;
+            let anchored = if secs >= 0 { before <= nb && nb <= after } else { before <= na && na <= after };
+            let v2 = Validity::from_duration(chrono::TimeDelta::try_seconds(secs).unwrap());
+            let same = (v2.not_after().timestamp() - v2.not_before().timestamp() - len).abs() <= 1;
+            format!("ordered={} length={} anchored={} from_duration={}", ordered, long, anchored, same)
+        }
         ["validity", nb, na, now] => {
             let v = Validity::new(time_of(nb.parse().unwrap()), time_of(na.parse().unwrap()));
             // `<n>+h`: half a second after n (an evaluation instant between two representable times)
@@ -288,6 +311,24 @@ pub fn generate(ctx: &mut Ctx) {
                     ctx.case(&format!("dec {} {}", tag, hex(format!("{}{}{}{}Z", y, m, d, t).as_bytes())));
                 }
             }}
+        }
+    }
+    // Time::years_from_date: leap days, year ends, both directions; Validity::from_secs in both directions
+    {
+        let mut dates: Vec<i64> = vec![951782400 /* 2000-02-29 */, 951868799, 951868800, 1078012800 /* 2004-02-29 */, 1709164800 /* 2024-02-29 */,
+            1709251199, 1709251200, 68169600 /* 1972-02-29 */, 951696000 /* 2000-02-28 */, 946684799, 946684800, 978307199, 0, -1, 1,
+            4107456000 /* 2100-02-28 */, 4107542400 /* 2100-03-01 */, 13574563200 /* 2400-02-29 */, 253402300799, -62135596800];
+        for _ in 0..(if thorough { 20_000 } else { 2_000 }) { dates.push(rng.range(0, 200_000_000_000) as i64 - 50_000_000_000); }
+        for &d in &dates {
+            for y in [0i32, 1, -1, 4, -4, 100, -100, 400, 3, 25] {
+                // keep the result inside the years 1..9999
+                let approx_year = 1970 + d.div_euclid(31_556_952);
+                if approx_year + (y as i64) < 2 || approx_year + (y as i64) > 9998 { continue; }
+                ctx.case(&format!("yfd {} {}", y, d));
+            }
+        }
+        for s in [0i64, 1, -1, 59, 60, 3600, 86400, -86400, 31_536_000, -31_536_000, 1_000_000_000, -1_000_000_000, 86399, 7 * 86400] {
+            ctx.case(&format!("fromsecs {}", s));
         }
     }
     // validity triples over a boundary set of instants
